@@ -3,7 +3,7 @@
 
 *)
 From Coq Require Import ZArith NArith List Bool Arith.
-From NSG Require Import Base.Prelude Model.Defender Model.Coord Proofs.CoordBase Proofs.CoordInv Proofs.CoordInvConn Proofs.CoordInvDispatch Proofs.CoordInvHandler Proofs.CoordProps Proofs.CoordDirect.
+From NSG Require Import Base.Prelude Model.Defender Model.Coord Proofs.CoordBase Proofs.CoordInv Proofs.CoordInvConn Proofs.CoordInvDispatch Proofs.CoordInvHandler Proofs.CoordProps Proofs.CoordDirect Proofs.CoordInv2 Proofs.CoordAgentStep.
 Import ListNotations.
 
 (* the triple appended to the trajectory (action, reward, resulting view) is produced in the same step as the OK response, with the same reward *)
@@ -95,6 +95,33 @@ Theorem C16_files :
           else fl).
 Proof. exact (@reset_one_effect). Qed.
 
+(* in every reachable state every agent's trajectory has exactly one more state than actions and as many rewards as actions *)
+Theorem C16_wf :
+  forall (V W G : Type) (wstep : W -> V -> G -> W * V) (wreset : W -> W) (winit : W -> role -> W * V)
+         (goal : role -> V -> bool) (detect : list G -> G -> bool) (cfg : config) 
+         (w : W) (ls : list (@label G)) (s : @state V W G) (c : addr) (a : @agent V G),
+       @execs V W G wstep wreset winit goal detect cfg (@init_state V W G w) ls = @Some (@state V W G) s ->
+       @alookup (@agent V G) c (@agents V W G s) = @Some (@agent V G) a -> @traj_wf V G (@a_traj V G a).
+Proof. exact (@traj_wf_reachable). Qed.
+
+(* ACROSS LABELS: from every reachable state one label leaves an agent's trajectory alone, appends exactly one (action, reward, view) triple whose reward and view are the stored ones, or restarts it from the stored view (after RESET_DONE) *)
+Theorem C16_one_label :
+  forall (V W G : Type) (wstep : W -> V -> G -> W * V) (wreset : W -> W) (winit : W -> role -> W * V)
+         (goal : role -> V -> bool) (detect : list G -> G -> bool) (cfg : config) 
+         (w : W) (ls0 : list (@label G)) (s s' : @state V W G) (l : @label G) (c : addr) 
+         (a : @agent V G),
+       @execs V W G wstep wreset winit goal detect cfg (@init_state V W G w) ls0 = @Some (@state V W G) s ->
+       @exec V W G wstep wreset winit goal detect cfg s l = @Some (@state V W G) s' ->
+       @alookup (@agent V G) c (@agents V W G s) = @Some (@agent V G) a ->
+       @alookup (@agent V G) c (@agents V W G s') = @None (@agent V G) \/
+       (exists a' : @agent V G,
+          @alookup (@agent V G) c (@agents V W G s') = @Some (@agent V G) a' /\
+          (@a_traj V G a' = @a_traj V G a \/
+           (exists (act : G) (r : Z) (v : V),
+              @a_traj V G a' = @traj_add V G (@a_traj V G a) act r v /\
+              @a_view V G a' = v /\ @a_reward V G a' = r) \/ @a_traj V G a' = @traj_start V G (@a_view V G a))).
+Proof. exact (@traj_step_reachable). Qed.
+
 
 (* non-vacuity: a concrete run of the executable instance reaches a state in which a request is
    held back at a barrier (two required players, one has joined) and the model is quiescent *)
@@ -116,3 +143,5 @@ Print Assumptions C16_refused.
 Print Assumptions C16_frame.
 Print Assumptions C16_handout.
 Print Assumptions C16_files.
+Print Assumptions C16_wf.
+Print Assumptions C16_one_label.
